@@ -557,6 +557,8 @@ func c01Run(in *bufio.Scanner, w *bufio.Writer) {
 	defer os.RemoveAll(dir)
 	s := &c01Sess{dir: dir}
 	ch := &c01Chron{}
+	api := &c01Api{}
+	defer api.stop()
 	nch := 0
 	for in.Scan() {
 		line := in.Text()
@@ -564,6 +566,8 @@ func c01Run(in *bufio.Scanner, w *bufio.Writer) {
 		switch {
 		case f[0] == "case":
 			fmt.Fprintln(w, line)
+		case f[0] == "aset" || f[0] == "aget" || f[0] == "arpc" || f[0] == "arestart":
+			fmt.Fprintln(w, api.apply(f))
 		case strings.HasPrefix(f[0], "c") && f[0] != "cfg" && f[0] != "close" && f[0] != "compact":
 			fmt.Fprintln(w, ch.apply(dir, &nch, f))
 		case f[0] == "raw" && len(f) == 2:
@@ -738,6 +742,21 @@ func c01Gen(rng *rand.Rand, tier string, w *bufio.Writer) {
 		for _, l := range []string{"wk 70000 3 0", "w 3 x:00000000 x:-", "close", "load", "compact", "load"} {
 			g.emit(l)
 		}
+	}
+
+	// ---- the API on top of everything: what the gateway acknowledges must survive a restart
+	fmt.Fprintf(w, "case %d\n", caseNo)
+	caseNo++
+	apiCases := [][2]int{{30, 5}, {30, 65535}, {30, 65536}, {30, 70000}, {65535, 5}, {65536, 5}, {70000, 5}, {200, 300}}
+	for i, c := range apiCases {
+		fmt.Fprintf(w, "aset %d %d %d\n", c[0], c[1], 100+i)
+	}
+	for i, r := range c01ApiRPCs {
+		fmt.Fprintf(w, "arpc %s %d %d\n", r, []int{70000, 65536}[i%2], 200+i)
+	}
+	fmt.Fprintln(w, "arestart")
+	for i, c := range apiCases {
+		fmt.Fprintf(w, "aget %d %d %d\n", c[0], c[1], 100+i)
 	}
 
 	// ---- the chronicler path (lines are only emitted here; the generator does not need the files)
